@@ -242,7 +242,7 @@ def run_tlc(
         if out_file is None:
             out_file = os.path.join(work, "tlc.out")
         with open(out_file, "w") as ofh:
-            p = subprocess.run(cmd, cwd=work, env=e, stdout=ofh, stderr=subprocess.STDOUT,
+            p = subprocess.run(cmd, cwd=work, env=e, stdout=ofh, stderr=subprocess.STDOUT, preexec_fn=_lift_memory_limit,
                                timeout=timeout)
         rc = p.returncode
     except subprocess.TimeoutExpired:
@@ -487,23 +487,115 @@ class TraceVerdict:
 
 
 # ----------------------------------------------------------------------------
+# containment of the code under test: a change may make it loop or eat memory; the harness must still come to an end
+# ----------------------------------------------------------------------------
+class Timeout(Exception):
+    pass
+
+
+from contextlib import contextmanager  # noqa: E402
+
+
+@contextmanager
+def time_limit(seconds: float):
+    """SIGALRM-based budget for one call into the code under test (main thread of the process only)."""
+    import signal
+
+    def handler(signum, frame):
+        raise Timeout()
+    old = signal.signal(signal.SIGALRM, handler)
+    signal.setitimer(signal.ITIMER_REAL, seconds)
+    try:
+        yield
+    finally:
+        signal.setitimer(signal.ITIMER_REAL, 0)
+        signal.signal(signal.SIGALRM, old)
+
+
+def limit_memory(gib: float):
+    """Soft address-space limit for THIS process: a runaway allocation in the code under test becomes a MemoryError (a
+    verdict where exceptions are verdicts) instead of the kernel killing the process.  Children started through run_tlc lift
+    the limit again (the hard limit is left alone)."""
+    import resource
+    try:
+        soft, hard = resource.getrlimit(resource.RLIMIT_AS)
+        want = int(gib * 2 ** 30)
+        if hard != resource.RLIM_INFINITY:
+            want = min(want, hard)
+        resource.setrlimit(resource.RLIMIT_AS, (want, hard))
+    except Exception:  # noqa
+        pass
+
+
+def _lift_memory_limit():
+    import resource
+    try:
+        soft, hard = resource.getrlimit(resource.RLIMIT_AS)
+        resource.setrlimit(resource.RLIMIT_AS, (hard, hard))
+    except Exception:  # noqa
+        pass
+
+
+# ----------------------------------------------------------------------------
 # parallel map over forked workers (the code under test is imported before the fork)
 # ----------------------------------------------------------------------------
 _PMAP_FN = None
+
+
+def _pmap_init():
+    # (on top of what the forked child already maps)
+    try:
+        cur = int(open("/proc/self/statm").read().split()[0]) * os.sysconf("SC_PAGE_SIZE") / 2 ** 30
+    except Exception:  # noqa
+        cur = 0.0
+    limit_memory(cur + float(os.environ.get("VERIF_WORKER_GIB", "8")))
 
 
 def _pmap_call(args):
     return _PMAP_FN(args)
 
 
-def pmap(fn: Callable[[Any], Any], items: List[Any], procs: int = 16) -> List[Any]:
-    """fn runs in forked children; results are returned in order. Falls back to serial for small inputs."""
+def pmap(fn: Callable[[Any], Any], items: List[Any], procs: int = 16, timeout: Optional[float] = None) -> List[Any]:
+    """fn runs in forked children; results are returned in order. Falls back to serial for small inputs.  A worker that
+    dies (killed, crashed interpreter) or a map that does not finish within `timeout` seconds ends the check with a
+    MachineryError instead of waiting for ever."""
     import multiprocessing as mp
+    from concurrent.futures import ProcessPoolExecutor
+    from concurrent.futures.process import BrokenProcessPool
 
     global _PMAP_FN
     if len(items) <= 1 or procs <= 1:
         return [fn(x) for x in items]
     _PMAP_FN = fn
-    ctx = mp.get_context("fork")
-    with ctx.Pool(min(procs, len(items))) as pool:
-        return pool.map(_pmap_call, items)
+    timeout = timeout or float(os.environ.get("VERIF_PMAP_SECONDS", "5400"))
+    ex = ProcessPoolExecutor(max_workers=min(procs, len(items)), mp_context=mp.get_context("fork"), initializer=_pmap_init)
+    try:
+        futs = [ex.submit(_pmap_call, x) for x in items]
+        t_end = time.time() + timeout
+        out = []
+        for f in futs:
+            out.append(f.result(timeout=max(1.0, t_end - time.time())))
+        ex.shutdown(wait=True)
+        return out
+    except BrokenProcessPool:
+        _kill_pool(ex)
+        raise MachineryError("a worker process died while running the code under test (killed by the kernel or crashed): "
+                             "no verdict; run the check's inputs one by one to find the text that does it")
+    except TimeoutError:
+        _kill_pool(ex)
+        raise MachineryError(f"workers did not finish within {timeout:.0f}s: the code under test may hang on one of the inputs")
+    except BaseException:
+        _kill_pool(ex)
+        raise
+
+
+def _kill_pool(ex):
+    try:
+        for p in list(getattr(ex, "_processes", {}).values()):
+            try:
+                p.kill()
+            except Exception:  # noqa
+                pass
+        ex.shutdown(wait=False, cancel_futures=True)
+    except Exception:  # noqa
+        pass
